@@ -13,7 +13,7 @@ PROPERTY = 'C15'
 LEVEL = 'exploration'
 RULE = (
     "Case = one-way latency (0.5 ms..2 s), per-user list of server behaviours per AddUser attempt (exists / missing / "
-    "silent, cyclic), <=8 track_user/untrack_user calls for users u0 'Miles', u1 'miles' (names differing only in case, two distinct users) and u2 (in a quarter of the multi-user cases opened by a burst: every user gets a reason 0..5 iterations apart, so several attempts are in flight at once) with flags from {REQUESTED, TRANSFER, FRIEND} "
+    "silent, cyclic), <=8 track_user/untrack_user calls (flag argument: any subset of {REQUESTED, TRANSFER, FRIEND} incl. the empty set TrackingFlag(0), which must change and send nothing; the model is set union / difference) for users u0 'Miles', u1 'miles' (names differing only in case, two distinct users) and u2 (in a quarter of the multi-user cases opened by a burst: every user gets a reason 0..5 iterations apart, so several attempts are in flight at once) with flags from {REQUESTED, TRANSFER, FRIEND} "
     "(single, sometimes combined), each followed by a gap: 0..16 loop iterations, a virtual delay 1 ms..700 s (biased to "
     "the neighbourhood of 10 s, 20 s, 600 s), 'retry' (wait until the exact instant at which the pending retry of that "
     "user fires, then k iterations) or 'reply' (the exact instant at which the AddUser reply reaches the client, then k "
@@ -133,9 +133,9 @@ def case_strategy(draw):
             if len(held) > 1 and draw(st.integers(0, 3)) == 0:
                 f = sets[u]                                    # remove all at once
         elif mode < 9:
-            op, f = 't', draw(st.sampled_from([1, 2, 4, 1, 2, 4, 3, 5, 6, 7]))
+            op, f = 't', draw(st.sampled_from([1, 2, 4, 1, 2, 4, 3, 5, 6, 7, 0]))
         else:
-            op, f = 'u', draw(st.sampled_from([1, 2, 4, 7]))   # possibly a reason that is not held
+            op, f = 'u', draw(st.sampled_from([1, 2, 4, 7, 3, 5, 6, 0, 0]))   # possibly reasons that are not held / none
         sets[u] = (sets[u] | f) if op == 't' else (sets[u] & ~f)
         ops.append({'op': op, 'u': u, 'f': f, 'gap': draw(_gap_strategy())})
     if draw(st.integers(0, 9)) < 3:
@@ -202,8 +202,8 @@ def _sanitise(case):
             if ncalls >= MAX_CALLS:
                 continue
             ncalls += 1
-            f = _num(o.get('f', 1), 0, 10 ** 6, 1, int) & 7
-            ops.append({'op': kind, 'u': u, 'f': f or 1, 'gap': gap})
+            f = _num(o.get('f', 1), 0, 10 ** 6, 1, int) & 7       # 0 = TrackingFlag(0): changes nothing, sends nothing
+            ops.append({'op': kind, 'u': u, 'f': f, 'gap': gap})
         elif kind == 'x' and not have_x:
             have_x = True
             ops.append({'op': 'x', 'u': u, 'k': _num(o.get('k', 0), 0, 10 ** 6, 0, int) % len(DISC_KINDS), 'gap': gap})
@@ -932,7 +932,7 @@ def xfer_strategy(draw):
             ops.append({'op': 'remove', 'slot': k, 'gap': gap})
         elif w < 14:
             ops.append({'op': draw(st.sampled_from(['t', 't', 'u'])), 'u': draw(st.integers(0, 1)),
-                        'f': 1 if friendly else draw(st.sampled_from([1, 4])), 'gap': gap})
+                        'f': draw(st.sampled_from([1, 1, 0])) if friendly else draw(st.sampled_from([1, 4, 1, 4, 5, 0])), 'gap': gap})
         elif logged_in and w < 18:
             logged_in = False
             ops.append({'op': 'x', 'k': draw(st.integers(0, 2)), 'gap': gap})
@@ -940,7 +940,8 @@ def xfer_strategy(draw):
             logged_in = True
             ops.append({'op': 'login', 'gap': gap})
         else:
-            ops.append({'op': 'u', 'u': draw(st.integers(0, 1)), 'f': 1 if friendly else draw(st.sampled_from([1, 4])),
+            ops.append({'op': 'u', 'u': draw(st.integers(0, 1)),
+                        'f': draw(st.sampled_from([1, 1, 0])) if friendly else draw(st.sampled_from([1, 4, 1, 4, 5, 0])),
                         'gap': gap})
     case = {'tier': 'xfer', 'lat': draw(st.sampled_from([0.001, 0.02])), 'ops': ops}
     if friendly:
@@ -962,7 +963,7 @@ def _sanitise_xfer(case):
         if op['op'] == 'add':
             op['mode'] = o.get('mode') if o.get('mode') in XFER_MODES else 'paused'
         elif op['op'] in 'tu':
-            op['f'] = 4 if _num(o.get('f', 1), 0, 10 ** 6, 1, int) & 4 else 1      # REQUESTED or FRIEND, never TRANSFER
+            op['f'] = _num(o.get('f', 1), 0, 10 ** 6, 1, int) & 5      # any of {}, REQUESTED, FRIEND, both; never TRANSFER
         elif op['op'] == 'x':
             op['k'] = _num(o.get('k', 0), 0, 10 ** 6, 0, int) % len(DISC_KINDS)    # eof | reset | failing write
         elif op['op'] in ('fadd', 'fdel', 'fset'):
@@ -974,7 +975,7 @@ def _sanitise_xfer(case):
         # the FRIEND bit is owned by the friend list in these cases: the user API only handles REQUESTED
         for o in ops:
             if o['op'] in ('t', 'u'):
-                o['f'] = 1
+                o['f'] &= 1
     return {'lat': _num(case.get('lat', 0.02), 0.0005, 0.05, 0.02), 'ops': ops, 'friends0': friends0,
             'ld': _num(case.get('ld', 0.0), 0.0, 2.0, 0.0), 'lprio': _num(case.get('lprio', 0), 0, 1, 0, int)}
 
@@ -1290,6 +1291,40 @@ def _enumerated_case_cases():
     return out
 
 
+def _enumerated_flag_cases():
+    """Calls that carry the empty flag set (change nothing, send nothing) and composite flag sets."""
+    out = []
+    for beh in (0, 1):
+        for f0 in (1, 4, 5):
+            for off in (0, 1, 4, 9):
+                for op in ('t', 'u'):
+                    # an empty-set call on a user that is tracked (or retry pending) for f0
+                    out.append({'lat': 0.02, 'full': False, 'beh': [[beh, 0], [0], [0]], 'tail': 31.0, 'ops': [
+                        {'op': 't', 'u': 0, 'f': f0, 'gap': ['dt', 1.0] if off == 9 else ['it', off]},
+                        {'op': op, 'u': 0, 'f': 0, 'gap': ['dt', 3.0]},
+                        {'op': 'u', 'u': 0, 'f': f0, 'gap': ['it', off]},
+                        {'op': op, 'u': 0, 'f': 0, 'gap': ['it', 0]}]})
+    for op in ('t', 'u'):
+        for full in (False, True):
+            # an empty-set call on a user nobody tracks
+            out.append({'lat': 0.02, 'full': full, 'beh': [[0], [0], [0]], 'tail': 12.0, 'ops': [
+                {'op': op, 'u': 0, 'f': 0, 'gap': ['dt', 1.0]}, {'op': op, 'u': 0, 'f': 0, 'gap': ['it', 2]},
+                {'op': 't', 'u': 1, 'f': 1, 'gap': ['it', 0]}]})
+    # composite sets: union on track, difference on untrack
+    for seq in ([('t', 5), ('u', 1), ('u', 4)], [('t', 7), ('u', 7)], [('t', 3), ('u', 5), ('u', 2)],
+                [('t', 1), ('t', 6), ('u', 3), ('u', 4)], [('t', 4), ('u', 3), ('u', 7), ('t', 7), ('u', 6), ('u', 1)]):
+        for gap in (['it', 0], ['it', 3], ['dt', 1.0]):
+            out.append({'lat': 0.02, 'full': False, 'beh': [[0], [0], [0]], 'tail': 12.0,
+                        'ops': [{'op': o, 'u': 0, 'f': f, 'gap': gap} for o, f in seq]})
+    for f in (0, 5):
+        out.append({'tier': 'xfer', 'lat': 0.02, 'ops': [
+            {'op': 't', 'u': 0, 'f': 1, 'gap': 1.5}, {'op': 'u', 'u': 0, 'f': f & 4, 'gap': 1.5},
+            {'op': 't', 'u': 1, 'f': f, 'gap': 1.5}, {'op': 'add', 'slot': 0, 'u': 1, 'mode': 'paused', 'gap': 1.5},
+            {'op': 'u', 'u': 1, 'f': 0, 'gap': 1.5}, {'op': 'u', 'u': 1, 'f': 5, 'gap': 1.5},
+            {'op': 'abort', 'slot': 0, 'gap': 1.5}]})
+    return out
+
+
 def _enumerated_friend_cases():
     """settings.users.friends changed in place while an application FriendListChangedEvent listener is suspended."""
     out = []
@@ -1395,7 +1430,7 @@ def _enumerated_glue_cases():
 
 def run_shard(ctx):
     ctx.enumerate(_enumerated_cases() + _enumerated_xfer_cases() + _enumerated_glue_cases() +
-                  _enumerated_friend_cases() + _enumerated_case_cases())
+                  _enumerated_friend_cases() + _enumerated_case_cases() + _enumerated_flag_cases())
     n = 700 if ctx.tier == 'quick' else 20000
     # the transfer-manager tier first: it is the cheaper one and must not be starved by the wall-clock budget
     ctx.explore(xfer_strategy(), 150 if ctx.tier == 'quick' else 4000, salt=1)
